@@ -727,7 +727,12 @@ func (fr *Frame) loopWrites(li *loopInfo) (names map[string]bool, all bool) {
 			}
 		}
 	}
+	var idxs []int
 	for idx := range li.body {
+		idxs = append(idxs, idx)
+	}
+	sort.Ints(idxs)
+	for _, idx := range idxs {
 		for _, in := range fr.fn.Blocks[idx].Instrs {
 			ws, a := fr.g.instrWrites(fr, in, 0)
 			if a {
@@ -810,7 +815,12 @@ func (fr *Frame) enterLoop(li *loopInfo, b *ssa.BasicBlock, reach string, st *St
 			hs.h["Alloc"] = na
 		}
 	}
+	var phis []*ssa.Phi
 	for phi := range phiVals {
+		phis = append(phis, phi)
+	}
+	sort.Slice(phis, func(i, j int) bool { return phis[i].Name() < phis[j].Name() })
+	for _, phi := range phis {
 		hv := fr.havocVal(phi.Type(), "loop"+li.key+"."+phi.Name()+"."+phi.Comment, hs)
 		if pv := phiVals[phi]; pv.Fn != nil {
 			hv.Fn = pv.Fn
